@@ -141,11 +141,24 @@ class World:
         dawgie.db.open = lambda: self.db_calls.append('open')
         dawgie.db.archive = lambda done: (self.db_calls.append('archive'), done())[1]
         dawgie.db.metrics = lambda *a, **k: []
-        dawgie.pl.resources.distribution = lambda m: {}
+        self.insights = True   # what the introspection finds: metrics of earlier runs (non-empty) or nothing
+        dawgie.pl.resources.distribution = lambda m: ({'task.alg': {'cpu': 1.0}} if self.insights else {})
         dawgie.pl.resources.last_runid = lambda: 0
         farm.plow = lambda: None
-        farm.notify_all = lambda: None
-        farm.clear = lambda: self._on_farm_clear()
+        # farm.notify_all stays REAL (it tells the registered hands whether the pipeline is active);
+        # farm.clear is the real one plus the observation that FSM.load ran
+        real_clear = farm.clear
+        farm.clear = lambda: (real_clear(), self._on_farm_clear())[1]
+        import dawgie.pl.message as message
+        self.message = message
+        real_send = message.send
+        self.sent = []
+
+        def send(m, s):
+            self._on_send(m)
+            return real_send(m, s)
+
+        message.send = send
         schedule.next_job_batch = lambda: []
         schedule.promote = types.SimpleNamespace(more=lambda: False)
         dawgie.tools.submit.already_applied = lambda cs, repo: False
@@ -193,7 +206,8 @@ class World:
         self.fresh()
 
     # ------------------------------------------------------------------ construction
-    def fresh(self, archive0=False):
+    def fresh(self, archive0=False, insights=True):
+        self.insights = bool(insights)
         st, farm = self.state, self.farm
         self.pending.clear()
         self.db_calls.clear()
@@ -201,6 +215,8 @@ class World:
                     farm._workers, self.schedule.que):
             lst.clear()
         farm.ARCHIVE = bool(archive0)
+        farm.insights = {}
+        self.sent.clear()
         fsm = st.FSM()
         self.ctx.fsm = fsm
 
@@ -300,6 +316,30 @@ class World:
             'priority': getattr(f.priority, 'name', None),
             'slots': (f.crew_thread is not None, f.doing_thread is not None, f.todo_thread is not None),
         }
+
+    def _on_send(self, m):
+        """a `wait` message is the farm declaring the pipeline active to an idle worker"""
+        f = self.fsm
+        if f is None:
+            return
+        rest = f.state == 'running' and f.transitioning.name == 'active' and not self.life()
+        self.sent.append((m.type.name, rest))
+        if m.type == self.message.Type.wait and not rest and not self.forced_mode:
+            self.violations.append((
+                'C10:worker-told-active-while-inactive',
+                f'the farm sent `wait` (pipeline active, stay registered) to an idle worker while the life-cycle is '
+                f'{f.state}/{f.transitioning.name} with {[r.kind for r in self.life()]} outstanding'))
+
+    def add_hand(self):
+        """an idle, registered worker: a real farm.Hand on a fake transport"""
+        import collections
+
+        hand = self.farm.Hand(collections.namedtuple('IPV4', ['host', 'port'])('localhost', 600 + len(self.farm._workers)))
+        hand.transport = types.SimpleNamespace(written=[], lost=0)
+        hand.transport.write = hand.transport.written.append
+        hand.transport.loseConnection = lambda t=hand.transport: setattr(t, 'lost', t.lost + 1)
+        self.farm._workers.append(hand)
+        return hand
 
     def _on_farm_clear(self):
         # FSM.load: farm.notify_all(); farm.clear() before deferring _pipeline
@@ -571,10 +611,20 @@ class World:
             self._run_later()
         return self._end('trigger')
 
-    def ev_dispatch(self):
+    def ev_dispatch(self, hands=0):
+        for _ in range(hands):
+            self.add_hand()
         self._begin()
-        self._guarded(self.farm.dispatch)
-        return self._end('trigger')
+        err = self._guarded(self.farm.dispatch)
+        o = self._end('trigger')
+        if err is not None:
+            self.violations.append(('C10:dispatch-raised', f'farm.dispatch raised {type(err).__name__}: {err}'))
+        if o['moves'] and not self.fsm.is_pipeline_active() and self.farm._workers:
+            self.violations.append((
+                'C10:workers-kept-while-inactive',
+                f'the dispatch round that fired {o["moves"][0][0]} ended with the life-cycle at {o["state"]}/{o["tr"]} and '
+                f'{len(self.farm._workers)} idle worker(s) still registered as available'))
+        return o
 
     def ev_flag(self):
         self._begin()
